@@ -280,11 +280,30 @@ class SensorHarness(Harness):
         self.params = {k: ent[k] for k in ("cfg", "block", "sensor", "id", "cls", "first", "count", "kind")}
         if ent.get("table"):
             self.params["table"] = ent["table"]
+        if ent.get("public"):
+            self.params["public"] = True
 
     def _single(self):
         """settings fetched by their own one-sensor request are decoded with read_value() from position 0"""
         return self.ent["kind"] == "setting" and not (self.ent["cfg"]["family"] == "ES" and self.ent["first"] < 30000
                                                       and self.ent["cls"] not in ("EcoModeV1", "ByteH"))
+
+    def _public_read(self, M, crc, payload):
+        """The value as a user gets it: inv.read_setting(id) on a fresh inverter object whose every request is
+        answered with a full-length response carrying `payload`."""
+        from .fakeinv import drive
+        inv, _fake = models.make(M, self.ent["cfg"], crc=crc)
+        st = inv.settings()[self.ent["sensor"]]
+        if st.id_ != self.ent["id"]:
+            raise RuntimeError(f"catalog mismatch: {st.id_} != {self.ent['id']}")
+        if M.prefix == "goodwe":
+            for other in inv.settings():
+                wrap_sensor_labels(other)
+
+        async def answer(command):
+            return block_response(M, command, payload)
+        inv._read_from_socket = answer
+        return drive(inv.read_setting(st.id_))
 
     def symbolic(self, ex: Explorer) -> str:
         G = shimmed()
@@ -292,7 +311,15 @@ class SensorHarness(Harness):
         cmd, s, nbytes = rebuild(G, self.ent)
         wrap_sensor_labels(s)
         tab = self.ent.get("table")
-        if tab:
+        pub = self.ent.get("public")
+        if pub and nbytes == 86:
+            # ES settings block: the public call decodes the whole table; only this setting's bytes are symbolic
+            w = WIDTH.get(cls_name(s), 0)
+            pos = position(cmd, s, G)
+            fill = table_filler("mix", nbytes)
+            sym = SBytes.symbolic("B", nbytes)
+            payload = SBytes(tuple(fill[:pos]) + tuple(sym.items[pos:pos + w]) + tuple(fill[pos + w:]))
+        elif tab:
             # table level: the real _map_response over the whole live table; only this sensor's bytes are symbolic
             w = WIDTH.get(cls_name(s), 0)
             pos = position(cmd, s, G)
@@ -308,7 +335,12 @@ class SensorHarness(Harness):
         log = sb.READ_LOG = []
         try:
             try:
-                if tab:
+                if pub:
+                    got = self._public_read(G, const_crc, payload)
+                    outcome = "value" if got is not None else "none"
+                    if nbytes == 86 and cls_name(s) in ("Timestamp", "EcoModeV1", "EcoModeV2", "Schedule", "PeakShavingMode"):
+                        outcome = "ValueError" if got is None else "value"
+                elif tab:
                     res = inv_cls._map_response(resp, sensors)
                     if s.id_ not in res:
                         ex.fail("sensor id missing from the _map_response result")
@@ -416,6 +448,12 @@ class SensorHarness(Harness):
             pos = position(cmd, s, R)
             fill = table_filler(tab, nbytes)
             payload = fill[:pos] + payload[pos:pos + w] + fill[pos + w:]
+        pub = self.ent.get("public")
+        if pub and nbytes == 86:
+            w = WIDTH.get(cls_name(s), 0)
+            pos = position(cmd, s, R)
+            fill = table_filler("mix", nbytes)
+            payload = fill[:pos] + payload[pos:pos + w] + fill[pos + w:]
         resp = block_response(R, cmd, payload)
         reads = []
         orig_read = resp._bytes.read
@@ -436,7 +474,13 @@ class SensorHarness(Harness):
         viol = None
         where = f"{self.ent['cfg']['family']}:{self.ent['first']}+{self.ent['count']}:{s.id_}({cls_name(s)}@{s.offset})"
         try:
-            if tab:
+            if pub:
+                where += "[read_setting]"
+                got = self._public_read(R, None, payload)
+                outcome = "value" if got is not None else "none"
+                if nbytes == 86 and cls_name(s) in ("Timestamp", "EcoModeV1", "EcoModeV2", "Schedule", "PeakShavingMode"):
+                    outcome = "ValueError" if got is None else "value"
+            elif tab:
                 inv_cls, sensors = LAST_TABLE[R.prefix]
                 res = inv_cls._map_response(resp, sensors)
                 ids = [x.id_ for x in sensors]
